@@ -221,6 +221,10 @@ pub async fn build_memtable_flow(
         );
     }
 
+    // Width of the batches the upstream operators produce; a RETURN list can select a strict
+    // prefix of them, which must not be mistaken for the identity projection below.
+    let input_column_count = final_schema.column_count();
+
     // Compute projection for RETURN fields if specified
     let projection = if let Command::Query {
         return_fields,
@@ -255,7 +259,7 @@ pub async fn build_memtable_flow(
 
     // Optimize: Skip ProjectOp if it's an identity projection (all columns in same order)
     // This avoids unnecessary cloning of all values
-    if projection.is_identity() {
+    if projection.is_identity() && projection.indices.len() == input_column_count {
         // Identity projection - just pass through batches without cloning
         Ok(ShardFlowHandle::new(current_rx, final_schema, tasks))
     } else {
@@ -450,6 +454,10 @@ pub async fn build_segment_stream(
         );
     }
 
+    // Width of the batches the upstream operators produce; a RETURN list can select a strict
+    // prefix of them, which must not be mistaken for the identity projection below.
+    let input_column_count = final_schema.column_count();
+
     // Compute projection for RETURN fields if specified
     let projection = if let Command::Query {
         return_fields,
@@ -483,7 +491,7 @@ pub async fn build_segment_stream(
     };
 
     // Optimize: Skip ProjectOp if it's an identity projection (all columns in same order)
-    if projection.is_identity() {
+    if projection.is_identity() && projection.indices.len() == input_column_count {
         // Identity projection - just pass through batches without cloning
         Ok(Some(ShardFlowHandle::new(current_rx, final_schema, tasks)))
     } else {
